@@ -1,4 +1,5 @@
 import XL.Model.Proto
+import XL.Model.Ref
 /-!
 # Request dispatcher of the executable model
 -/
@@ -30,11 +31,44 @@ def answerRect (cmd : String) (args : List String) : Option String :=
       pure (showRects (simplify mr x))
   | _, _ => none
 
+/-- strings travel as `u` followed by the code points in decimal, separated by `.` (`u` = empty) -/
+def decodeStr (s : String) : List Char :=
+  match s.toList with
+  | 'u' :: rest =>
+    if rest.isEmpty then [] else
+      ((String.ofList rest).splitOn ".").filterMap fun t => t.toNat?.map Char.ofNat
+  | _ => []
+
+def encodeStr (l : List Char) : String :=
+  "u" ++ ".".intercalate (l.map fun c => toString c.toNat)
+
+def showOpt4 : Option (Nat × Nat × Nat × Nat) → String
+  | none => "none"
+  | some (a, b, c, d) => s!"{a},{b},{c},{d}"
+
+def answerRef (cmd : String) (args : List String) : Option String :=
+  match cmd, args with
+  | "col", [n] => do let k ← parseNat? n; pure (encodeStr (colLetters k))
+  | "colidx", [s] => pure (toString (colIndex (decodeStr s)))
+  | "refname", [mr, mc, r] => do
+      let a ← parseNat? mr; let b ← parseNat? mc; let x ← parseRect? r
+      pure (encodeStr (refName a b x))
+  | "cellname", [mr, mc, r, c] => do
+      let a ← parseNat? mr; let b ← parseNat? mc; let x ← parseNat? r; let y ← parseNat? c
+      pure (encodeStr (cellName a b x y))
+  | "readback", [mr, mc, s] => do
+      let a ← parseNat? mr; let b ← parseNat? mc
+      pure (showOpt4 (readBack a b (decodeStr s)))
+  | "sheetid", [sh, d, f] => pure (encodeStr (buildSheetId (decodeStr sh) (decodeStr d) (decodeStr f)))
+  | "buildid", [r, s] => pure (encodeStr (buildId (decodeStr r) (decodeStr s)))
+  | "relabs", [h, o] => do let a ← parseNat? h; let b ← parseInt? o; pure (toString (relAbs a b))
+  | _, _ => none
+
 def answer (line : String) : String :=
   match (line.trimAscii.toString.splitOn " ").filter (· ≠ "") with
   | [] => "bad-request"
   | cmd :: args =>
-    match answerRect cmd args with
+    match (answerRect cmd args).orElse (fun _ => answerRef cmd args) with
     | some r => r
     | none => "bad-request"
 
